@@ -248,13 +248,13 @@ impl Check for C04 {
         "C04"
     }
     fn work(&self, tier: Tier) -> Vec<WorkItem> {
-        vec![WorkItem { mode: "directed", count: 1 }, WorkItem { mode: "direct", count: tier.pick(3_000, 200_000) }]
+        vec![WorkItem { mode: "directed", count: 1 }, WorkItem { mode: "corpus", count: super::c11::corpus_files().len() as u64 }, WorkItem { mode: "direct", count: tier.pick(3_000, 200_000) }]
     }
     fn evaluations_counter(&self) -> &'static str {
         "signal_values_compared"
     }
     fn rule(&self) -> String {
-        "G2 systems as in C02 (shared sub-terms between init/next/bad/constraint roots, init chains, const states, arrays, init reading step-0 inputs); UnrollSmtEncoding is driven through the public TransitionSystemEncoding trait with the real SmtLibSolverCtx text path into the reference solver: entry 0 = init_at(0) + 0..4 x unroll (the BMC entry), entry 1 = init_at(1) + 1..3 x unroll (the PDR entry, all states free). Oracle 1 (offline over the solver's event log): no command rejected by the strict SMT-LIB front end (declared/defined exactly once before use, well-sorted). Oracle 2: the recorded script is loaded into R6; for 12 (thorough 60) random concrete executions of the reference simulator the declared constants are bound to the execution (state@first step, input@k) and every define-fun is evaluated; for every step and every state, input, constraint and bad the value of the symbol returned by get_signal_at must equal the signal's value in that step. distinct_nontrivial = distinct (system, entry, depth) scripts.".into()
+        "G2 systems as in C02 (shared sub-terms between init/next/bad/constraint roots, init chains, const states, arrays, init reading step-0 inputs); UnrollSmtEncoding is driven through the public TransitionSystemEncoding trait with the real SmtLibSolverCtx text path into the reference solver: entry 0 = init_at(0) + 0..4 x unroll (the BMC entry), entry 1 = init_at(1) + 1..3 x unroll (the PDR entry, all states free). Oracle 1 (offline over the solver's event log): no command rejected by the strict SMT-LIB front end (declared/defined exactly once before use, well-sorted). Oracle 2: the recorded script is loaded into R6; for 12 (thorough 60) random concrete executions of the reference simulator the declared constants are bound to the execution (state@first step, input@k) and every define-fun is evaluated; for every step and every state, input, constraint and bad the value of the symbol returned by get_signal_at must equal the signal's value in that step. mode corpus: the shipped btor2 designs (quick <= 5 kB, thorough <= 40 kB; files whose state/input names are not unique are skipped because the oracle binds by name) go through the same two oracles with a random entry point and 1-3 unroll steps. distinct_nontrivial = distinct (system, entry, depth) scripts.".into()
     }
     fn assumptions(&self) -> Vec<String> {
         vec!["scripts that need constant arrays are not judged under the yices-smt2 persona (reported by C02 as a known finding)".into()]
@@ -291,6 +291,36 @@ impl Check for C04 {
             }
             return;
         }
+        if case.mode == "corpus" {
+            // the shipped designs: realistic signal graphs (many named signals, wide vectors, memories)
+            let files = super::c11::corpus_files();
+            let Some(path) = files.get(case.n as usize) else { return };
+            let Ok(text) = std::fs::read_to_string(path) else { return };
+            if text.len() > sh.tier.pick(5_000, 40_000) {
+                sh.count("corpus_files_skipped_for_size", 1);
+                return;
+            }
+            let Ok(Some(sys)) = util::catch(|| patronus::btor2::parse_str(&mut ctx, &text, Some("corpus"))) else { return };
+            // the oracle binds script constants to signals by name: names have to identify states and inputs
+            let mut names: Vec<&str> = sys.states.iter().map(|s| s.symbol).chain(sys.inputs.iter().copied()).filter_map(|s| ctx.get_symbol_name(s)).collect();
+            let n_all = names.len();
+            names.sort();
+            names.dedup();
+            if names.len() != n_all || names.iter().any(|n| n.contains('@')) {
+                sh.count("corpus_files_skipped_for_ambiguous_names", 1);
+                return;
+            }
+            let label = format!("shipped design {}\n", util::short_path(&path.to_string_lossy()));
+            let (entry, nsteps) = if rng.flip() { (0, rng.range(1, 3)) } else { (1, rng.range(1, 2)) };
+            let persona = *rng.pick(&["bitwuzla", "z3", "cvc5"]);
+            let before = sh.c_local("executions_checked");
+            self.one(sh, &mut ctx, &sys, &mut rng, &label, entry, nsteps, persona);
+            if sh.c_local("executions_checked") > before {
+                sh.count("corpus_scripts_judged", 1);
+                sh.distinct(util::mix(&[util::hash_str(&label), entry, nsteps]));
+            }
+            return;
+        }
         let cfg = mc_sys_cfg(&mut rng);
         let gs = gen_system(&mut rng, &mut ctx, &cfg, "");
         let sys = gs.sys;
@@ -304,5 +334,6 @@ impl Check for C04 {
     fn finalize(&self, m: &mut Merged, tier: Tier) {
         m.floor("scripts", m.c("scripts"), tier.pick(3_000, 200_000));
         m.floor("executions checked against the script", m.c("executions_checked"), tier.pick(20_000, 5_000_000));
+        m.floor("scripts of shipped designs judged (well-formed + faithful on executions)", m.c("corpus_scripts_judged"), tier.pick(40, 80));
     }
 }
